@@ -486,7 +486,18 @@ func init() {
 			del := r.P.FuncObj("dkv", "(*DB).Delete")
 			enc := r.P.FuncObj("workers/operator", "(*KeyedStateStore).encodeDBKey")
 			// per case clause: which DB call
-			inspect(f.Decl.Body, func(nd ast.Node) bool {
+			var clauses []*ast.CaseClause
+			for _, ts := range typeSwitches(info, f.Decl.Body) {
+				for _, cl := range ts.Body.List {
+					clauses = append(clauses, cl.(*ast.CaseClause))
+				}
+			}
+			forClauses := func(fn func(nd ast.Node) bool) {
+				for _, cc := range clauses {
+					fn(cc)
+				}
+			}
+			forClauses(func(nd ast.Node) bool {
 				cc, ok := nd.(*ast.CaseClause)
 				if !ok || len(cc.List) != 1 {
 					return true
@@ -553,7 +564,7 @@ func init() {
 				return true
 			})
 			// default does not silently succeed
-			inspect(f.Decl.Body, func(nd ast.Node) bool {
+			forClauses(func(nd ast.Node) bool {
 				if cc, ok := nd.(*ast.CaseClause); ok && cc.List == nil {
 					loud := false
 					for _, st := range cc.Body {
